@@ -447,11 +447,14 @@ class GridBase(metaclass=ABCMeta):
 
     def _cache_hash(self) -> int:
         """Returns a value to determine when a cache needs to be updated."""
+        # use the byte representation of the bounds, since hashes of different floats
+        # can coincide, e.g., `hash(-1.0) == hash(-2.0)` in CPython
+        bounds = np.array(self.axes_bounds, dtype=np.double).tobytes()
         return hash(
             (
                 self.__class__.__name__,
                 self.shape,
-                self.axes_bounds,
+                bounds,
                 tuple(self.periodic),
             )
         )
